@@ -22,7 +22,7 @@ var ErrReadIO = errors.New("simdisk: injected read failure")
 
 // WFault describes a single writer-side fault.
 type WFault struct {
-	Kind  string `json:"kind"`  // "err" | "short"
+	Kind  string `json:"kind"`  // "err" | "short" | "fullerr"
 	K     int    `json:"k"`     // index of the Write call (0-based)
 	Short int    `json:"short"` // for "short": accepted bytes = Short mod len(p) (Short<0: len-1)
 }
@@ -51,6 +51,11 @@ func (w *DiskWriter) Write(p []byte) (int, error) {
 		switch w.Fault.Kind {
 		case "err":
 			return 0, ErrInjected
+		case "fullerr":
+			// the device took every byte and still reports failure (legal for an io.Writer)
+			w.Buf = append(w.Buf, p...)
+			w.FiredAccepted = len(p)
+			return len(p), ErrInjected
 		case "short":
 			n := 0
 			if len(p) > 0 {
